@@ -205,17 +205,36 @@ theorem chooseKex_agree {c s : LocalAlgs} (ck sk : Bytes) (hm : MarkerFree c s) 
 
 theorem chooseOrErr_swap (a b : List Name) : chooseOrErr true a b = chooseOrErr false b a := by
   simp only [chooseOrErr, chooseAlg, chooseErr, if_true, Bool.false_eq_true, if_false]
-  rw [Bool.or_comm]
 
 theorem chooseOrErr_ok {isClient : Bool} {a b : List Name} {x : Name} :
     chooseOrErr isClient a b = .ok x ↔ chooseAlg isClient a b = some x := optErr_ok
 
-theorem negotiateRest_agree (c s : LocalAlgs) (ck sk : Bytes) (kex : Name) :
-    negotiateRest true c (sentKexInit false sk s) kex = negotiateRest false s (sentKexInit true ck c) kex := by
+theorem negotiateRest_agree (c s : LocalAlgs) (ck sk : Bytes) (kex hk : Name) :
+    negotiateRest true c (sentKexInit false sk s) kex hk = negotiateRest false s (sentKexInit true ck c) kex hk := by
   simp only [negotiateRest, sentKexInit, chooseOrErr_swap]
 
-/-- **Both roles pick the same seven names** when each parsed the lists the other one sent. -/
+theorem firstIn_nil_right (c : List Name) : firstIn c [] = none := firstIn_none.mpr (by simp)
+
+/-- the host key algorithm: a client whose own list is empty advertises the placeholder `null`, which is why
+    the two sides are compared on the configured lists and not on the advertised ones -/
+theorem chooseHostKey_agree {c s : LocalAlgs} (ck sk : Bytes) {kex a b : Name} (hg : isGssKex kex = false)
+    (h1 : chooseHostKey true c (sentKexInit false sk s) kex = .ok a)
+    (h2 : chooseHostKey false s (sentKexInit true ck c) kex = .ok b) : a = b := by
+  simp only [chooseHostKey, hg, Bool.false_eq_true, if_false, chooseOrErr_ok, chooseAlg, if_true,
+    sentKexInit] at h1 h2
+  by_cases hc : c.hostKey.isEmpty = true
+  · have : c.hostKey = [] := by simpa using hc
+    rw [this] at h1; simp [firstIn] at h1
+  · by_cases hs : s.hostKey.isEmpty = true
+    · have : s.hostKey = [] := by simpa using hs
+      rw [this, firstIn_nil_right] at h2; simp at h2
+    · simp only [hc, hs, Bool.false_eq_true, if_false] at h1 h2
+      rw [h1] at h2; exact Option.some.inj h2
+
+/-- **Both roles pick the same eight names** (key exchange method, server host key algorithm, cipher, MAC and
+    compression per direction) when each parsed the lists the other one sent. -/
 theorem negotiate_agree {c s : LocalAlgs} {ck sk : Bytes} {n1 n2 : Negotiated} (hm : MarkerFree c s)
+    (hg : ∀ k ∈ s.kex, isGssKex k = false)
     (h1 : negotiate true c (sentKexInit false sk s) = .ok n1)
     (h2 : negotiate false s (sentKexInit true ck c) = .ok n2) : n1 = n2 := by
   unfold negotiate at h1 h2
@@ -224,13 +243,20 @@ theorem negotiate_agree {c s : LocalAlgs} {ck sk : Bytes} {n1 n2 : Negotiated} (
   | none => simp [hk] at h2
   | some kex =>
     simp only [hk] at h1 h2
-    have hc : serverLacksHostKey true c (sentKexInit false sk s) kex = false := by simp [serverLacksHostKey]
-    rw [hc] at h1
-    simp only [Bool.false_eq_true, if_false] at h1
-    split at h2
-    · simp at h2
-    · rw [negotiateRest_agree c s ck sk kex] at h1
-      rw [h1] at h2
-      exact (Except.ok.inj h2)
+    have hkex : kex ∈ s.kex := by
+      simp only [chooseAlg, Bool.false_eq_true, if_false] at hk
+      exact (firstIn_some hk).1
+    cases ha : chooseHostKey true c (sentKexInit false sk s) kex with
+    | error e => simp [ha] at h1
+    | ok a =>
+      cases hb : chooseHostKey false s (sentKexInit true ck c) kex with
+      | error e => simp [hb] at h2
+      | ok b =>
+        simp only [ha, hb] at h1 h2
+        have := chooseHostKey_agree ck sk (hg kex hkex) ha hb
+        subst this
+        rw [negotiateRest_agree c s ck sk kex a] at h1
+        rw [h1] at h2
+        exact (Except.ok.inj h2)
 
 end AsyncsshModel.Kex
